@@ -964,7 +964,8 @@ std::string Generator::GeneratorImpl::generateOperatorCode(const std::string &op
     // 10. OR (logical)                                          [Left to right]
     // 11. PIECEWISE (as an operator)                            [Right to left]
 
-    if (isPlusOperator(ast)) {
+    if (isRelationalOperator(ast)
+        || isPlusOperator(ast)) {
         if (isRelationalOperator(astLeftChild)
             || isLogicalOperator(astLeftChild)
             || isPiecewiseStatement(astLeftChild)) {
